@@ -176,6 +176,32 @@ def _pipeline(spec, cfg, solve, out, stats):
         out["Tminus"] = float(res.temperatureMinus)
         out["fieldProfiles"] = np.asarray(res.fieldProfiles, dtype=float)
         out["temperatureProfile"] = np.asarray(res.temperatureProfile, dtype=float)
+        # fixed-velocity probe: the real wallPressure in the middle of the window from the
+        # default starting parameters.  Gives the metamorphic checks something to compare at
+        # the wall-solving stage also when the outcome is RUNAWAY (no velocity, no widths).
+        if not (cfg.get("offEq") and spec.get("particles")) and cfg.get("pressure_probe", True):
+            try:
+                import WallGo
+                vpr = 0.5 * min(hyd.vJ, out["fastestDeflag"])
+                # converged iteration (the default stops at 10 %: widths and offsets lag)
+                ce = m.config.configEOM
+                keep = (ce.pressRelErrTol, ce.maxIterations)
+                ce.pressRelErrTol, ce.maxIterations = min(keep[0], 1e-3), max(keep[1], 80)
+                try:
+                    solver = m.setupWallSolver(MG.wall_settings(cfg))
+                finally:
+                    ce.pressRelErrTol, ce.maxIterations = keep
+                nf = pot.fieldCount
+                L0 = float(cfg.get("wallThicknessGuess", 5.0))
+                o_ = solver.eom.wallPressure(vpr, WallGo.WallParams(widths=np.full(nf, L0 / Tn),
+                                                                    offsets=np.zeros(nf)))
+                out["probe"] = {"vw": float(vpr), "P_over_Tn4": float(o_[0]) / Tn ** 4,
+                                "widths": np.asarray(o_[1].widths, float),
+                                "offsets": np.asarray(o_[1].offsets, float),
+                                "ok": bool(solver.eom.successWallPressure
+                                           and solver.eom.successTemperatureProfile)}
+            except Exception as exc:
+                out["probe"] = {"error": repr(exc)[:200]}
     out["stage"] = "done"
     out["_pot"] = pot
     return out
